@@ -29,7 +29,7 @@ func init() {
 			"a string equals its decoded form after replacing each invalid byte by U+FFFD",
 			"encoding/json is the independent parser; int columns return from ReadJSON as float64(ParseFloat(decimal text))",
 		},
-		Stages:  stages(20000, 400000, 0, 0),
+		Stages:  stages(20000, 2500000, 0, 0),
 		RunCase: runC14,
 	})
 }
